@@ -20,6 +20,16 @@ def make_models(prog=None):
         if isinstance(size, Enum):          # Option<i32> for lz4
             ex.force(size)
             size = size.f[0] if size.variant == 'Some' else None
+        if getattr(ex, 'decomp_exact', False):
+            # framing obligation: the decompressor either fails or returns exactly the announced number of (arbitrary) bytes
+            ex.decomp_called = True
+            if ex.nondet(2, 'decompressor outcome') == 1:
+                return Err(iomodels.io_error('InvalidData'))
+            n_ = size.concrete() if size is not None else None
+            if n_ is None:
+                raise Unsupported('decompressor size argument is symbolic')
+            ex.decomp_out = [sym_int(ex.fresh('dec'), 'u8') for _ in range(n_)]
+            return Ok(VecM(list(ex.decomp_out)))
         lim = getattr(ex, 'decomp_limit', 4)
         k = ex.nondet(lim + 2, 'decompressor outcome')
         if k == lim + 1:
@@ -32,12 +42,54 @@ def make_models(prog=None):
         ex.world.decomp_calls = getattr(ex.world, 'decomp_calls', 0) + 1
         return Ok(VecM([sym_int(ex.fresh('dec'), 'u8') for _ in range(k)]))
 
+    # ---- SharedString as a value (contract: content + a hash that is an injective function of the content; the interning table,
+    # its locking and the reference counts are the subject of C18, not of the codecs)
+    def ss_make(ex, content):
+        w = getattr(ex.world, 'ss_values', None)
+        if w is None:
+            w = ex.world.ss_values = []
+        h = z3.BitVec(ex.fresh('blake3'), 256)
+        for oc, oh in w:
+            same = z3.And([a.t == b_.t for a, b_ in zip(content, oc)]) if len(oc) == len(content) else z3.BoolVal(False)
+            ex.assume((h == oh) == (same if len(content) else z3.BoolVal(len(oc) == 0)))
+        w.append((list(content), h))
+        return Struct([VecM(list(content)), Sc(h, 'hash256')], 'SharedString')
+    M.ss_make = ss_make
+
+    @M.path('SharedString', ['new', 'data', 'hash', 'clone', 'eq', 'as_ref', 'drop'], override=True)
+    def _shared_string(ex, args, info):
+        mth = info.method
+        if mth == 'new':
+            v = deref(args[0])
+            return ss_make(ex, list(v.items))
+        me = deref(args[0])
+        if mth in ('data', 'as_ref'):
+            return SliceRef(Ptr(Cell(me.f[0])), 0, len(me.f[0].items))
+        if mth == 'hash' and len(args) == 1:
+            return Struct([me.f[1]], 'SharedStringHash')
+        if mth == 'clone':
+            return Struct([me.f[0], me.f[1]], 'SharedString')
+        if mth == 'eq':
+            return Sc(z3.simplify(me.f[1].t == deref(args[1]).f[1].t), 'bool')
+        if mth == 'drop':
+            return Unit()
+        raise Unsupported('SharedString::' + mth)
+
     @M.rx(r'(^|::)full_name_for$', 'SerializerState::full_name_for (stub: text that only reaches error messages)')
     def _full_name(ex, m, args, callee, dest):
         return StrV(None, z3.Int(ex.fresh('fullname')))
 
     @M.rx(r'^(lz4::block::compress|zstd::bulk::compress)$', 'lz4/zstd compress (contract: Err, or Ok(some bytes))')
     def _compress(ex, m, args, callee, dest):
+        lens = getattr(ex, 'compress_lens', None)
+        if lens is not None:
+            # contract used by the framing obligation: an error, or arbitrary bytes of one of the given (non-zero) lengths
+            k = ex.nondet(len(lens) + 1, 'compressor outcome')
+            if k == len(lens):
+                return Err(iomodels.io_error('Other'))
+            out = VecM([sym_int(ex.fresh('cmp'), 'u8') for _ in range(lens[k])])
+            ex.compressed_out = out.items
+            return Ok(out)
         k = ex.nondet(3, 'compressor outcome')
         if k == 2:
             return Err(iomodels.io_error('Other'))
@@ -221,6 +273,31 @@ def run_case(H, ex, case):
                 ex.assume(wellformed)
                 raise Violation('C04.chunk: a well-formed uncompressed chunk is rejected')
         return 'err'
+    if what == 'cchunk':
+        # a compressed chunk: 4 symbolic name bytes, compressed length c, length u, reserved 0, c symbolic body bytes
+        c, u = case['clen'], case['ulen']
+        name = [sym_int('nm%d' % i, 'u8') for i in range(4)]
+        bodyb = [sym_int('cb%d' % i, 'u8') for i in range(c)]
+        data = name + B(u32le(c)) + B(u32le(u)) + B(u32le(0)) + bodyb
+        ex.input_bytes = data
+        ex.decomp_exact, ex.decomp_called, ex.decomp_out = True, False, None
+        ex.alloc_limit = len(data) + u + 1
+        try:
+            res = ex.force(ex.call_fn(H.F_CHUNK, [Ptr(Cell(iomodels.CursorV(data)))]))
+        except PanicPath as p:
+            raise Violation('C13.panic[cchunk]: Chunk::decode panics on a compressed chunk: %s at %s' % (p.msg, p.site))
+        if res.variant == 'Ok':
+            if ex.decomp_out is None:
+                raise Violation('C04.chunk[cchunk]: a compressed chunk is accepted without decompressing it')
+            got = res.f[0].f[H.prog.field('Chunk', 'data')].items
+            if len(got) != u or (u and ex.sat(z3.Or([a.t != b_.t for a, b_ in zip(got, ex.decomp_out)]))):
+                raise Violation('C04.chunk[cchunk]: chunk data is not the decompressor output')
+            return 'ok'
+        if ex.decomp_out is not None:
+            raise Violation('C04.chunk[cchunk_reject:%d:%d]: a well-formed compressed chunk (compressed length %d, length %d) is rejected although the decompressor returned the announced %d bytes' % (c, u, c, u, u))
+        if not ex.decomp_called:
+            raise Violation('C04.chunk[cchunk_reject:%d:%d]: a well-formed compressed chunk (compressed length %d, length %d) is rejected before decompression' % (c, u, c, u))
+        return 'err'
     if what == 'file':
         # a file assembled by the case (list of Sc u8, partly symbolic) through the real Deserializer::deserialize
         data = case['build'](H, ex) if 'build' in case else build_file(H, ex, case)
@@ -256,7 +333,38 @@ def run_case(H, ex, case):
         # ChunkBuilder::dump(CompressionType::None) into a sink with room for k bytes
         n, k = case['len'], case['room']
         body = [sym_int('b%d' % i, 'u8') for i in range(n)]
-        cb = H.S('ChunkBuilder', chunk_name=SliceRef(Ptr(Cell(ArrayV(B(b'PROP')))), 0, 4), compression=Enum('CompressionType', 'None'), buffer=VecM(list(body)))
+        comp = case.get('comp', 'None')
+        cb = H.S('ChunkBuilder', chunk_name=SliceRef(Ptr(Cell(ArrayV(B(b'PROP')))), 0, 4), compression=Enum('CompressionType', comp), buffer=VecM(list(body)))
+        if comp != 'None':
+            # compressed chunk framing (docs/binary.md "Chunks"): compressed length = number of body bytes that follow, which are
+            # the compressor's output; or compressed length 0 and the body is the raw data.  The compressor is a contract stub
+            # returning arbitrary bytes of length n-1, n, n+1 or 1.
+            ex.compress_lens = sorted({1, max(1, n - 1), max(1, n), n + 1})
+            ex.compressed_out = None
+            sink = iomodels.SinkV(limit=None)
+            fn = H.prog.resolve('ChunkBuilder::dump')
+            try:
+                res = ex.force(ex.call_fn(fn, [cb, Ptr(Cell(sink))]))
+            except PanicPath as p:
+                raise Violation('C03.panic[dump_%s]: ChunkBuilder::dump panics: %s' % (comp, p.msg))
+            if res.variant != 'Ok':
+                if ex.compressed_out is not None:
+                    raise Violation('C03.chunk[dump_%s]: ChunkBuilder::dump fails although compressor and sink succeeded' % comp)
+                return 'err'
+            o = sink.out
+            if len(o) < 16 or ex.sat(z3.Or([a.t != b_.t for a, b_ in zip(o[:4], B(b'PROP'))])) or ex.sat(le32(o[8:12]) != n) or ex.sat(le32(o[12:16]) != 0):
+                raise Violation('C03.chunk[dump_%s]: chunk header (name, length, reserved) differs from docs/binary.md' % comp)
+            clen_t = z3.simplify(le32(o[4:8]))
+            if not z3.is_bv_value(clen_t):
+                raise Violation('C03.chunk[dump_%s]: compressed length field is not determined' % comp)
+            clen, bodyb, cz = clen_t.as_long(), o[16:], ex.compressed_out or []
+            if clen == 0:
+                if len(bodyb) != n or (n and ex.sat(z3.Or([a.t != b_.t for a, b_ in zip(bodyb, body)]))):
+                    raise Violation('C03.chunk[dump_%s_raw]: header announces an uncompressed chunk (compressed length 0) but the body is not the raw data (compressor output %d bytes, data %d bytes)' % (comp, len(cz), n))
+            else:
+                if clen != len(bodyb) or len(bodyb) != len(cz) or ex.sat(z3.Or([a.t != b_.t for a, b_ in zip(bodyb, cz)])):
+                    raise Violation('C03.chunk[dump_%s_len]: compressed length field %d, %d body bytes, compressor output %d bytes' % (comp, clen, len(bodyb), len(cz)))
+            return 'ok'
         sink = iomodels.SinkV(limit=k)
         fn = H.prog.resolve('ChunkBuilder::dump')
         try:
@@ -483,6 +591,13 @@ def model_view(H, m, v):
                 out.append(r)
         return out
     if isinstance(v, Enum):
+        if v.ename == 'Variant' and v.variant == 'Font':
+            f_ = v.f[0]
+            g_ = lambda nm: f_.f[H.prog.structs['Font'].index(nm)]
+            wn = ['Thin', 'ExtraLight', 'Light', 'Regular', 'Medium', 'SemiBold', 'Bold', 'ExtraBold', 'Heavy']
+            face = g_('cached_face_id')
+            return {'Font': [(wn.index(g_('weight').variant) + 1) * 100, ['Normal', 'Italic'].index(g_('style').variant), model_view(H, m, g_('family')),
+                             None if face.variant == 'None' else model_view(H, m, face.f[0])]}
         if v.ename == 'Variant':
             return {v.variant: model_view(H, m, v.f[0])}
         if v.ename == 'BrickColor':
@@ -512,9 +627,14 @@ def confirm_decoded(H, ex, case, label):
     m = ex.solver.model()
     data = bytes(m.eval(x.t, model_completion=True).as_long() for x in ex.input_bytes)
     dbj = json.dumps(db_json(case.get('classes') if isinstance(case.get('classes'), dict) else None))
-    rc, out, _ = C.run([gen.tool('replayer'), 'bytes', 'binary-decode-db', data.hex(), dbj], timeout=60)
     os.makedirs(C.REPLAYS, exist_ok=True)
     path = os.path.join(C.REPLAYS, '%s_%s.json' % (label.split('.')[0], hashlib.sha256(data + dbj.encode()).hexdigest()[:10]))
+    hexarg = data.hex()
+    if len(hexarg) > 60000:            # beyond what fits an argv entry: hand the file over by path
+        with open(path + '.hex', 'w') as fh:
+            fh.write(hexarg)
+        hexarg = '@' + path + '.hex'
+    rc, out, _ = C.run([gen.tool('replayer'), 'bytes', 'binary-decode-db', hexarg, dbj], timeout=60)
     ok, detail = False, 'native: ' + out.strip()[-200:]
     try:
         res = json.loads(out.strip().split('\n')[-1]) if 'PANIC' not in out else None
@@ -545,7 +665,7 @@ def confirm_decoded(H, ex, case, label):
         ok = got != ex.c04_tree
         want = ex.c04_tree
         detail = 'native: decoded forest %s, the file describes %s' % (got, want)
-    json.dump(dict(property=label.split('.')[0], label=label, file_hex=data.hex(), database=json.loads(dbj), expected=want, native=out[-600:], confirmed=ok,
+    json.dump(dict(property=label.split('.')[0], label=label, file_hex=data.hex() if len(data) < 30000 else hexarg, database=json.loads(dbj), expected=want, native=out[-600:], confirmed=ok,
                    how='tools/replayer bytes binary-decode-db <file_hex> <database json>'), open(path, 'w'), indent=1)
     return ok, path, detail
 
@@ -558,6 +678,27 @@ def confirm(H, ex, case, label):
         return False, None, 'path condition unsatisfiable at report time'
     if (label.startswith('C04') and case['what'] in ('prop', 'tree')) or case['what'] == 'migr':
         return confirm_decoded(H, ex, case, label)
+    if case['what'] == 'cchunk':
+        # native: highly compressible real chunks (1 MiB of one byte, Zstandard and LZ4) through the real reader
+        os.makedirs(C.REPLAYS, exist_ok=True)
+        path = os.path.join(C.REPLAYS, 'C04_compressed_chunk.json')
+        rc, out, _ = C.run([gen.tool('replayer'), 'bytes', 'binary-bigstring', '1048576'], timeout=300)
+        ok = '"err"' in out or 'PANIC' in out or '"mismatch"' in out
+        json.dump(dict(property='C04', label=label, native=out[-600:], confirmed=ok, how='tools/replayer bytes binary-bigstring 1048576'), open(path, 'w'), indent=1)
+        return ok, path, 'native: ' + out.strip()[-200:]
+    if case['what'] == 'dump' and case.get('comp', 'None') != 'None':
+        # the compressor is a stub in the symbolic run; natively the finding is looked for through the public writer with real
+        # compressors on a family of inputs (names a^k)
+        os.makedirs(C.REPLAYS, exist_ok=True)
+        path = os.path.join(C.REPLAYS, 'C03_compress_scan.json')
+        rc, out, _ = C.run([gen.tool('replayer'), 'bytes', 'binary-compress-scan'], timeout=300)
+        try:
+            r = json.loads(out.strip().split('\n')[-1])
+        except Exception:
+            r = {}
+        ok = bool(r.get('bad')) or 'PANIC' in out
+        json.dump(dict(property='C03', label=label, native=out[-600:], confirmed=ok, how='tools/replayer bytes binary-compress-scan'), open(path, 'w'), indent=1)
+        return ok, path, 'native: files that do not read back: %s' % (r.get('bad') or [])[:6]
     if case['what'] == 'dump':
         # the sink obligation is replayed through the public writer: a one-Folder DOM into a sink with room for r bytes, every r
         os.makedirs(C.REPLAYS, exist_ok=True)
@@ -588,7 +729,12 @@ def confirm(H, ex, case, label):
     os.makedirs(C.REPLAYS, exist_ok=True)
     prop = label.split('.')[0]
     path = os.path.join(C.REPLAYS, '%s_chunk_%s.json' % (prop, hashlib.sha256(blob).hexdigest()[:10]))
-    cmd = [gen.tool('replayer'), 'bytes', 'binary-decode', blob.hex()]
+    hexarg = blob.hex()
+    if len(hexarg) > 60000:
+        with open(path + '.hex', 'w') as fh:
+            fh.write(hexarg)
+        hexarg = '@' + path + '.hex'
+    cmd = [gen.tool('replayer'), 'bytes', 'binary-decode', hexarg]
     if 'alloc' in label:
         rc, out, _ = C.run(['bash', '-c', 'ulimit -v 600000; exec %s' % ' '.join(cmd)], timeout=60)
         ok = rc != 0 and ('memory allocation' in out or rc in (134, -6))
@@ -632,10 +778,11 @@ PROP_TYPES = {
     # name: (type id, list of (field, kind)) -- one symbolic value per instance is a dict field -> z3 term
     'Bool': 0x02, 'Int32': 0x03, 'Float32': 0x04, 'Float64': 0x05, 'UDim': 0x06, 'UDim2': 0x07, 'Ray': 0x08, 'Faces': 0x09, 'Axes': 0x0a,
     'BrickColor': 0x0b, 'Color3': 0x0c, 'Vector2': 0x0d, 'Vector3': 0x0e, 'Enum': 0x12, 'Ref': 0x13, 'Vector3int16': 0x14, 'NumberRange': 0x17,
-    'Content': 0x22, 'Rect': 0x18, 'PhysicalProperties': 0x19, 'Color3uint8': 0x1a, 'Int64': 0x1b, 'String': 0x01, 'NumberSequence': 0x15, 'ColorSequence': 0x16, 'CFrame': 0x10,
+    'Content': 0x22, 'Font': 0x20, 'Rect': 0x18, 'PhysicalProperties': 0x19, 'Color3uint8': 0x1a, 'Int64': 0x1b, 'String': 0x01, 'NumberSequence': 0x15, 'ColorSequence': 0x16, 'CFrame': 0x10,
 }
 FIELDS = {
     'Content': [],
+    'Font': [('fam', 8), ('face', 8)],
     'Bool': [('v', 'bool')], 'Int32': [('v', 32)], 'Float32': [('v', 32)], 'Float64': [('v', 64)], 'UDim': [('scale', 32), ('offset', 32)],
     'UDim2': [('xs', 32), ('xo', 32), ('ys', 32), ('yo', 32)], 'Ray': [('ox', 32), ('oy', 32), ('oz', 32), ('dx', 32), ('dy', 32), ('dz', 32)],
     'Faces': [('v', 8)], 'Axes': [('v', 8)], 'BrickColor': [('v', 32)], 'Color3': [('r', 32), ('g', 32), ('b', 32)], 'Vector2': [('x', 32), ('y', 32)],
@@ -714,6 +861,13 @@ def spec_prop_values(kind, vals, opts=None):
             out += B(u32le(n))
             for _ in range(n):
                 out += le(v['t'], 4) + le(v['r'], 4) + le(v['g'], 4) + le(v['b'], 4) + B(bytes(4))
+        return out
+    if kind == 'Font':
+        # family (String), weight u16 LE, style u8, cached face id (String, possibly empty)
+        out = []
+        for i, v in enumerate(vals):
+            out += B(u32le(1)) + [Sc(v['fam'], 'u8')] + B(list((opts['weight'][i]).to_bytes(2, 'little'))) + B([opts['style'][i]])
+            out += (B(u32le(1)) + [Sc(v['face'], 'u8')]) if opts['face'][i] else B(u32le(0))
         return out
     if kind == 'CFrame':
         out = []
@@ -806,6 +960,11 @@ def expected_variant(H, kind, v, opts, i):
         n = opts['len'][i]
         kp = ('Struct', 'ColorSequenceKeypoint', dict(time=f(v['t']), color=('Struct', 'Color3', dict(r=f(v['r']), g=f(v['g']), b=f(v['b'])))))
         return V('ColorSequence', ('Struct', 'ColorSequence', dict(keypoints=('Vec', [kp] * n))))
+    if kind == 'Font':
+        wnames = ['Thin', 'ExtraLight', 'Light', 'Regular', 'Medium', 'SemiBold', 'Bold', 'ExtraBold', 'Heavy']
+        face = ('Enum', 'Option', 'Some', [('Raw', StrV([Sc(v['face'], 'u8')], None))]) if opts['face'][i] else ('Enum', 'Option', 'None', [])
+        return V('Font', ('Struct', 'Font', dict(family=('Raw', StrV([Sc(v['fam'], 'u8')], None)), weight=('Enum', 'FontWeight', wnames[opts['weight'][i] // 100 - 1], []),
+                                                 style=('Enum', 'FontStyle', ['Normal', 'Italic'][opts['style'][i]], []), cached_face_id=face)))
     if kind == 'CFrame':
         rid = opts['rot'][i]
         pos = vec3(v['px'], v['py'], v['pz'])
@@ -839,6 +998,10 @@ def prop_case(H, ex, case):
     if kind == 'BrickColor':
         for v, num in zip(vals, opts['numbers']):
             ex.assume(v['v'] == num)
+    if kind == 'Font':
+        for v in vals:
+            for fld in ('fam', 'face'):
+                ex.assume(z3.And(z3.UGE(v[fld], 0x20), z3.ULT(v[fld], 0x7f)))
     ref_targets = None
     if kind == 'Ref':
         # each value names instance t, is the null referent (-1) or names no instance of the file (docs: "-1 ... null"; anything
